@@ -648,7 +648,7 @@ void child_run(const Job& job, const uint64_t* tape, const Dec* dec, Shared* out
     memset((void*)out, 0, offsetof(Shared, tape));
     out->dec_len = 0; out->dec_overflow = 0;
     g_trace = (job.flags & JF_TRACE) != 0;
-    if (g_trace) {
+    {   // always mapped, so that tracing does not shift later mappings (addresses are part of the event hash)
         g_trbuf = (char*)::mmap(nullptr, TR_CAP, PROT_READ | PROT_WRITE, MAP_PRIVATE | MAP_ANONYMOUS | MAP_NORESERVE, -1, 0);
         if (g_trbuf == MAP_FAILED) g_trbuf = nullptr;
     }
